@@ -124,6 +124,8 @@ def run(pid, tier, replay=None):
     except Exception:
         crash = traceback.format_exc()
         problems.append("harness crashed: " + crash[-600:])
+        if os.environ.get("VERIF_DEBUG"):
+            print(crash, file=sys.stderr)
 
     failures = outcome["failures"] if outcome else []
     disagreements = outcome["disagreements"] if outcome else []
